@@ -1,0 +1,13 @@
+//go:build !verif
+// +build !verif
+
+// Package verifhook provides observation points for runtime verification.
+//
+// It is only active when built with the "verif" tag; otherwise Emit is an empty function.
+package verifhook
+
+// Enabled tells whether hooks are compiled in.
+const Enabled = false
+
+// Emit does nothing in regular builds.
+func Emit(string, ...interface{}) {}
